@@ -37,7 +37,8 @@ type c04Case struct {
 	Steps      []c04Step `json:"steps"`
 	Goroutines int       `json:"goroutines"`
 	Reuse      bool      `json:"reuse_buffer"` // sequential only: every input is copied into one reused buffer before the call
-	PadTo      int       `json:"pad_to"`       // > 0: inputs are NUL-padded to this common length first
+	PadTo      int       `json:"pad_to"`       // > 0: inputs are padded to this common length first
+	PadByte    byte      `json:"pad_byte"`     // padding byte (0 = NUL; ' ' or '\n' keep text inputs text)
 }
 
 func c04Run(pool [][]byte, s c04Step) string {
@@ -81,7 +82,13 @@ func c04Check(c c04Case) vfResult {
 	for i := range c.Pool {
 		pool[i] = []byte(c.Pool[i])
 		if c.PadTo > len(pool[i]) {
-			pool[i] = append(append([]byte(nil), pool[i]...), make([]byte, c.PadTo-len(pool[i]))...)
+			pad := make([]byte, c.PadTo-len(pool[i]))
+			if c.PadByte != 0 {
+				for j := range pad {
+					pad[j] = c.PadByte
+				}
+			}
+			pool[i] = append(append([]byte(nil), pool[i]...), pad...)
 		}
 		if len(pool[i]) > maxLen {
 			maxLen = len(pool[i])
@@ -239,6 +246,14 @@ func c04GenPool(t *rapid.T) []vfB {
 			pool = append(pool, vfB(c03Ole(t)))
 		}
 		return pool
+	case 4: // markup / script documents that differ in their leading white space
+		for i := 0; i < n; i++ {
+			lead := rapid.SampledFrom([]string{"", " ", "\n", "  \n", "\t\t", "\r\n\r\n", "   ", "\x0c"}).Draw(t, "lead")
+			body := rapid.SampledFrom([]string{"<html><head><title>t</title></head>", "<?xml version=\"1.0\"?><gpx xmlns=\"http://www.topografix.com/GPX/1/1\">", "<?xml version=\"1.0\"?><rss version=\"2.0\">",
+				"<!DOCTYPE html><p>x</p>", "<svg xmlns=\"http://www.w3.org/2000/svg\"/>", "#!/usr/bin/env python\nprint(1)\n", "<?php echo 1;", "{\"type\":\"Feature\"}", "plain words"}).Draw(t, "body")
+			pool = append(pool, vfB(lead+body))
+		}
+		return pool
 	}
 	for i := 0; i < n; i++ {
 		switch rapid.IntRange(0, 9).Draw(t, "pk") {
@@ -301,6 +316,7 @@ func c04Gen(conc bool) func(t *rapid.T) c04Case {
 						c.PadTo = len(p)
 					}
 				}
+				c.PadByte = rapid.SampledFrom([]byte{0, ' ', '\n'}).Draw(t, "padbyte")
 			}
 		}
 		if conc {
@@ -457,7 +473,9 @@ func TestVerif_C04(t *testing.T) {
 		vfRun(t, vfSub[c04Immut]{Prop: "C04", Name: "immut", Checks: vfN(20000, 1500000), Check: c04ImmutCheck,
 			Gen: func(t *rapid.T) c04Immut {
 				var x []byte
-				switch rapid.IntRange(0, 3).Draw(t, "k") {
+				switch rapid.IntRange(0, 4).Draw(t, "k") {
+				case 4:
+					x = vfTarWindow(t, vfGenAnyInput(t))
 				case 0:
 					x = []byte(c12GenHTML(t).Doc)
 				case 1:
